@@ -57,15 +57,23 @@ def _cli(name):
     return importlib.import_module("batchie.cli." + name)
 
 
+VERBOSE = [False]        # set by the harness for a slice of the simulations: every CLI main gets --verbose, logging stays on
+CALLS = {}               # tool -> number of real main() calls (evidence counters class.entry-point.<tool>)
+
+
 def call_cli(tool, argv):
     """`<tool> <argv>` as the process script would run it: real main() with a patched sys.argv"""
     mod = _cli(tool)
+    CALLS[tool] = CALLS.get(tool, 0) + 1
     old = sys.argv
-    sys.argv = [tool] + [str(a) for a in argv]
+    sys.argv = [tool] + [str(a) for a in argv] + (["--verbose"] if VERBOSE[0] else [])
     prev = logging.root.manager.disable
-    logging.disable(logging.CRITICAL)
+    lg = logging.getLogger("batchie")
+    handlers, level = list(lg.handlers), lg.level
+    if not VERBOSE[0]:
+        logging.disable(logging.CRITICAL)
     try:
-        with contextlib.redirect_stdout(io.StringIO()):
+        with contextlib.redirect_stdout(io.StringIO()), contextlib.redirect_stderr(io.StringIO()):
             try:
                 mod.main()
             except SystemExit as e:      # argparse error = non-zero exit of the process
@@ -73,6 +81,8 @@ def call_cli(tool, argv):
     finally:
         sys.argv = old
         logging.disable(prev)
+        lg.handlers = handlers          # configure_logging adds a StreamHandler per call: dropped again
+        lg.setLevel(level)
 
 
 DEFAULT_CFG = {
